@@ -18,7 +18,7 @@ T = {
          'Every rule text / list value inside the stated bounds is executed on the working tree and compared with an independent reference evaluator under all assignments; nothing is sampled. Right level because mis-parses need specific short shapes, all of which lie inside the bound.',
          'Trusts the reference grammar model (cross-checked by DP count and brute force), CPython, oslo.config. Leaves are role: checks; bounds as in evidence.'),
  'C02': (E1, 'exploration', '4/C02',
-         'exhaustive enumeration of all rejected token strings up to the bound, complete 1-/2-edit neighbourhoods of valid sentences, all short character strings over a hostile alphabet, and every JSON/YAML value type as a rule value, each loaded and enforced on the real library',
+         'exhaustive enumeration of all rejected token strings up to the bound, complete 1-/2-edit neighbourhoods of valid sentences, all short character strings over a hostile alphabet, and every JSON/YAML value type as a rule value, each loaded and enforced on the real library; plus stateless schedule exploration (two threads sharing the parser / generator, every schedule within the preemption bound at the line boundaries of the library)',
          'All non-sentences within the bound must load and deny under a spread of credentials; every non-rule value must be rejected or deny. Exhaustive within bounds.',
          'Reference lexer/recogniser trusted; tokens with unsettled quote reading are only required to not raise and to deny when both readings deny.'),
  'C03': (E1, 'exploration', '4/C03',
@@ -70,7 +70,7 @@ T = {
          'All leaf texts in the bound are evaluated; any undocumented exception is a violation.',
          '% only inside well-formed placeholders, as the property states.'),
  'C15': (E1, 'exploration', '4/C15',
-         'exhaustive enumeration of sentences x leaf kinds and list shapes: print/parse fixpoint, decision equality, rule-set dump/load, and injectivity of the printed form',
+         'exhaustive enumeration of sentences x leaf kinds and list shapes: print/parse fixpoint, decision equality, rule-set dump/load, and injectivity of the printed form; plus stateless schedule exploration (two threads sharing the parser / generator, every schedule within the preemption bound at the line boundaries of the library)',
          'All rules in the bound; injectivity checked over the whole enumerated set.',
          'Leaves restricted to self-delimiting texts (no embedded whitespace), as the property states.'),
  'C16': (E1, 'fault_enumeration', '4/C16',
@@ -78,7 +78,7 @@ T = {
          'All bodies from pieces^<=3, all listed faults, both encodings.',
          'requests cut at HTTPAdapter.send; no sockets.'),
  'C17': (E1, 'exploration', '4/C17',
-         'exhaustive enumeration of descriptions/reasons (atoms^<=3) x default kinds x exclude-deprecated; sample re-read with YAML/JSON parsers and Rules.load',
+         'exhaustive enumeration of descriptions/reasons (atoms^<=3) x default kinds x exclude-deprecated; sample re-read with YAML/JSON parsers and Rules.load; plus stateless schedule exploration (two threads sharing the parser / generator, every schedule within the preemption bound at the line boundaries of the library)',
          'All atom concatenations in the bound.',
          'Atoms instead of all printable Unicode.'),
  'C18': (E1, 'exploration', '4/C18',
